@@ -299,6 +299,25 @@ func sprinkleNils(v reflect.Value, r *nilRng, top bool) (n int) {
 				n += sprinkleNils(v.Field(i), r, false)
 			}
 		}
+		// an element struct the alias mangler went over holds (field, alias
+		// copy) pairs: valid input gives the new name, the old name or neither
+		// (a quarter of the pairs keep both, which must be an error)
+		for i := 0; i < v.NumField(); i++ {
+			name := v.Type().Field(i).Name
+			cp := v.FieldByName(name + "_alias9wr876rw3")
+			if !cp.IsValid() || !cp.CanSet() || !v.Field(i).CanSet() {
+				continue
+			}
+			switch r.next() % 4 {
+			case 0:
+				cp.Set(reflect.Zero(cp.Type()))
+			case 1:
+				v.Field(i).Set(reflect.Zero(v.Field(i).Type()))
+			case 2:
+				cp.Set(reflect.Zero(cp.Type()))
+				v.Field(i).Set(reflect.Zero(v.Field(i).Type()))
+			}
+		}
 	}
 	return n
 }
@@ -639,6 +658,9 @@ func flagStep(c TypesCase) (o typesOutcome, dv *vrt.Verdict) {
 				}
 			}
 			args = append(args, dash+l.Name+"="+txt)
+			if gl := "given:" + base.String(); !strings.Contains(base.String(), "struct {") {
+				o.labels = append(o.labels, gl)
+			}
 		}
 		stage = "Value"
 		got, err = value()
@@ -743,18 +765,25 @@ func runTypesDecoder(c TypesCase) vrt.Verdict {
 	// them serve every call of the case
 	f := &feeder{}
 	switch c.Source {
+	// f.pre mirrors the name-only manglers the real decoder applies itself
+	// (dials tag -> format tag), so that the encoder spells the keys the
+	// decoder reads: dials-tagged fields and alias copies then really arrive
 	case "json":
 		f.inner, f.marshal = &jsondec.Decoder{}, marshalJSON
+		f.pre = []transform.Mangler{&tagformat.TagCopyingMangler{SrcTag: common.DialsTagName, NewTag: "json"}}
 	case "cue":
 		f.inner, f.marshal = &cuedec.Decoder{}, marshalJSON
+		f.pre = []transform.Mangler{&tagformat.TagCopyingMangler{SrcTag: common.DialsTagName, NewTag: "json"}}
 	case "yaml":
 		f.inner, f.marshal = &yamldec.Decoder{}, marshalYAML
+		f.pre = []transform.Mangler{&tagformat.TagCopyingMangler{SrcTag: common.DialsTagName, NewTag: "yaml"}}
 		if c.Chain == "yaml-flatten" {
 			f.inner = &yamldec.Decoder{FlattenAnonymous: true}
-			f.pre = []transform.Mangler{transform.AnonymousFlattenMangler{}}
+			f.pre = append(f.pre, transform.AnonymousFlattenMangler{})
 		}
 	case "toml":
 		f.inner, f.marshal = &tomldec.Decoder{}, marshalTOML
+		f.pre = []transform.Mangler{&tagformat.TagCopyingMangler{SrcTag: common.DialsTagName, NewTag: "toml"}}
 	default:
 		return vrt.Discardf("unknown decoder %q", c.Source)
 	}
@@ -1060,6 +1089,7 @@ func TestC16TypesFlag(t *testing.T) {
 		Rule: typesRuleCommon + "The std flag source is built from a template with seeded defaults (def_pct), then every chosen leaf that got a flag registered receives -name=<documented spelling of a seeded value> through the exported ParseFunc; " +
 			"the leaf grammar of the flag and pflag checks also holds user types that parse their own flag text, top-level or nested: flag.Value WITHOUT Get (FVLevel uint8, FVName string, FVPoint struct - Set + String on the pointer, which is all flag.Value asks for), flag.Getter (FGLevel: Get returns the value, FGName: the pointer, FGPoint), pflag.Value (PVLevel, PVName, PVPoint: Set + String + Type, hence also flag.Values without Get), user pointers to them, and FVPlain (a struct with Set + String but no text methods, which dials flattens); " +
 			"their flags are given (valid text; in a fifth of the cases text their own Set refuses) or omitted (set_pct); " +
+			"the grammar holds EVERY leaf type the flag sources register: all scalar widths, float32, complex64, uintptr, time.Duration, time.Time, []string, every integral slice ([]int, []int8 .. []int64, []uint, []uint8 .. []uint64, []uintptr), map[string]string, map[string][]string, map[string]struct{}; the label given:<type> counts how often a flag of each type was actually passed; " +
 			"oracle: NewSetWithArgs and Value return, without panic, either an error or a value of the pointerified type; " +
 			"non-trivial = named non-scalar leaf present and at least one flag passed; distinct = distinct case JSON",
 		Assumptions: typesAssumptions,
@@ -1081,7 +1111,7 @@ func TestC16TypesPflag(t *testing.T) {
 func TestC16TypesDecoders(t *testing.T) {
 	vrt.Check(t, vrt.Prop[TypesCase]{
 		ID: "C16", Name: "types-decoders",
-		Rule: typesRuleCommon + "(plus arrays of named elements, slices / maps of structs, and containers whose elements are pointers - []*time.Duration, map[string]*time.Duration, [2]*time.Duration, *[]time.Duration, []*int, map[string]*string, []*Level, []*Stamp, []DurRec ... - fed with nil elements in about a third of the slots; slices / arrays of an element struct with an unexported field ([]HidRec); the env / flag / pflag grammars also hold **Struct). Decoder uniform over json, yaml, toml, cue; chain uniform over none, the ez chains (alias + SetSlice, alias + tag reformatting + SetSlice), AnonymousFlatten, TextUnmarshaler, YAML FlattenAnonymous. " +
+		Rule: typesRuleCommon + "(plus arrays of named elements, slices / arrays / maps of structs - among them AliasElem, an element struct in which a field of every kind (scalars, strings, [2]int, [2]string, [2][2]int, slice, map, pointer, struct, pointer to struct, duration, named, text type) carries a dialsalias tag; the fed elements give the new name, the old name, neither or (a quarter) both -, and containers whose elements are pointers - []*time.Duration, map[string]*time.Duration, [2]*time.Duration, *[]time.Duration, []*int, map[string]*string, []*Level, []*Stamp, []DurRec ... - fed with nil elements in about a third of the slots; slices / arrays of an element struct with an unexported field ([]HidRec); the env / flag / pflag grammars also hold **Struct). Decoder uniform over json, yaml, toml, cue; chain uniform over none, the ez chains (alias + SetSlice, alias + tag reformatting + SetSlice), AnonymousFlatten, TextUnmarshaler, YAML FlattenAnonymous. " +
 			"A harness decoder under the chain builds a seeded value of the type it is asked for, spells it with the format's own encoder and hands the text to the real decoder; " +
 			"oracle: Decode returns, without panic, either an error or a value of the pointerified type; non-trivial = named non-scalar leaf present and at least one leaf spelled; distinct = distinct case JSON",
 		Assumptions: append([]string{"a value the format's encoder refuses (e.g. complex numbers in JSON) counts as a trivial case (label encoder-rejected)"}, typesAssumptions...),
@@ -1092,7 +1122,7 @@ func TestC16TypesDecoders(t *testing.T) {
 func TestC16TypesManglers(t *testing.T) {
 	vrt.Check(t, vrt.Prop[TypesCase]{
 		ID: "C16", Name: "types-manglers",
-		Rule: typesRuleCommon + "(plus arrays of named elements, slices / maps of structs, and containers whose elements are pointers - []*time.Duration, map[string]*time.Duration, [2]*time.Duration, *[]time.Duration, []*int, map[string]*string, []*Level, []*Stamp, []DurRec ... - fed with nil elements in about a third of the slots; slices / arrays of an element struct with an unexported field ([]HidRec); the env / flag / pflag grammars also hold **Struct). Chain drawn from the shipped manglers and chains (DefaultFlatten, alias + flatten, AnonymousFlatten, SetSlice, TextUnmarshaler, the two ez chains, AnonymousFlatten + ez, TagCopying, StringCasting on its own, the time.Duration -> ParsingDuration substitution alone and with TagCopying as the JSON / Cue decoders run it); " +
+		Rule: typesRuleCommon + "(plus arrays of named elements, slices / arrays / maps of structs - among them AliasElem, an element struct in which a field of every kind (scalars, strings, [2]int, [2]string, [2][2]int, slice, map, pointer, struct, pointer to struct, duration, named, text type) carries a dialsalias tag; the fed elements give the new name, the old name, neither or (a quarter) both -, and containers whose elements are pointers - []*time.Duration, map[string]*time.Duration, [2]*time.Duration, *[]time.Duration, []*int, map[string]*string, []*Level, []*Stamp, []DurRec ... - fed with nil elements in about a third of the slots; slices / arrays of an element struct with an unexported field ([]HidRec); the env / flag / pflag grammars also hold **Struct). Chain drawn from the shipped manglers and chains (DefaultFlatten, alias + flatten, AnonymousFlatten, SetSlice, TextUnmarshaler, the two ez chains, AnonymousFlatten + ez, TagCopying, StringCasting on its own, the time.Duration -> ParsingDuration substitution alone and with TagCopying as the JSON / Cue decoders run it); " +
 			"the pointerified type is translated, the mangled value filled leaf by leaf with seeded values of the mangled field types (StringCasting: with the documented spelling of a seeded value of the ORIGINAL leaf type), and translated back; " +
 			"oracle: Translate and ReverseTranslate return, without panic, either an error or a value of the pointerified type; non-trivial = named non-scalar leaf present and at least one mangled leaf filled; distinct = distinct case JSON",
 		Assumptions: typesAssumptions,
